@@ -52,6 +52,12 @@ CHECKS = {
          "alphabet through every ==/identity-predicate form, hashing with a fixed hasher; recipes that manufacture equal "
          "elements with different representatives ((-1)*Q vs -Q, P+Q-Q vs P, Q+(-1)Q vs O); the trace spec keeps the set of "
          "(type, encoding, hash) seen and rejects a second hash for the same encoding.", "5 C08"),
+ "C17": ("Exhaustive over the finite list of public constants of both builds (105 + 41 constant reads): each is dumped by the "
+         "harness as a canonical integer and TLC checks its defining equation recomputed from the modulus / curve alone "
+         "(2*HALF+1=p, bit size, two-adicity by definition, TRACE*2^s=p-1 odd, generator = conventional one and g^((p-1)/l)!=1 "
+         "for every known prime l | p-1 (complete for Fr and Fq), root of unity = g^t of exact order 2^s, least-non-residue^t, "
+         "2^(8N) mod p, sqrt precomputation, a=-1, d=3021 and d, d-a, zeta non-squares, generator = decode(8) with 8 least, "
+         "r*B = O, Montgomery-form coefficients, cofactors, BLS parameter equations q = x^4-x^2+1, p = (x-1)^2 q/3 + x).", "5 C17"),
 }
 TECH = "TLA+ specification model-checked with TLC on toy curves + TLC trace validation of recorded executions of both builds (spec evaluated at the real parameters)"
 def main():
